@@ -346,12 +346,157 @@ let answers : (int, string list ref) Hashtbl.t = Hashtbl.create 16   (* for twin
 let twin : (int * int) option ref = ref None
 let my_answers : string list ref ref = ref (ref [])
 
+let contains (s: string) (sub: string) : bool =
+  let n = String.length s and m = String.length sub in
+  let rec go i = i + m <= n && (String.sub s i m = sub || go (i + 1)) in go 0
+
+(* distinct non-trivial evaluations: (collection, operation, answer, resulting state) lines not seen
+   before in this run whose resulting / observed state is not the empty collection *)
+let seen_lines : (Digest.t, unit) Hashtbl.t = Hashtbl.create 65536
+let note_distinct op ans snap =
+  let nontrivial =
+    snap <> "-" && snap <> "" && not (starts_with ". |" snap) && not (starts_with "|" snap)
+    && not (starts_with "NOTREE" snap)
+    && (not (starts_with "L " snap) || contains snap ":") in
+  if nontrivial then begin
+    let d = Digest.string (!cur_coll ^ "\000" ^ op ^ "\000" ^ ans ^ "\000" ^ snap) in
+    if not (Hashtbl.mem seen_lines d) then (Hashtbl.add seen_lines d (); stat ("distinct_" ^ !cur_coll))
+  end
+
+(* ------------------------------------------------------------------ injected panics (C18) *)
+let sorted_pairs (l: ment list) = List.sort compare (List.map (fun (a, b) -> (int_of_z a, int_of_z b)) l)
+let kent_triple e = (int_of_z e.kk, int_of_z e.kexp, int_of_z e.kval)
+let live_view (t: int) (l: kent list) = List.sort compare (List.filter (fun (_, e, _) -> e > t) (List.map kent_triple l))
+
+let parse_keylist_snap (snap: string) : kent list * int =
+  match split_on "|" snap with
+  | Some (body, mn) ->
+    let ws = words body in
+    let rec go = function
+      | k :: e :: v :: r -> kent_of [k; e; v] :: go r
+      | [] -> []
+      | _ -> failwith "keylist snapshot" in
+    (go ws, int_of_string (String.trim mn))
+  | None -> failwith "keylist snapshot"
+
+let parse_chunks (count: int) (places: string list) : copy list list =
+  let tbl = Hashtbl.create 16 in
+  List.iter (fun w -> match split_on ":" w with
+    | Some (i, body) ->
+      Hashtbl.replace tbl (int_of_string i)
+        (List.map (fun c -> match String.split_on_char '/' c with
+           | [id; e; m] -> ((z_of_int (int_of_string id), z_of_int (int_of_string e)), n_of_hex m)
+           | _ -> failwith "copy") (String.split_on_char ',' body))
+    | None -> ()) places;
+  List.init count (fun i -> try Hashtbl.find tbl i with Not_found -> [])
+
+(* The operation [op] was interrupted by a panic injected into a user callback; [snap] is the state
+   the collection was left in.  Property: structurally valid, and its observable contents are those
+   before the operation or those after it.  Correspondence: the state is one of the model's event
+   states.  Afterwards the model adopts the state the implementation is in. *)
+let injected (st: hstate ref) (op: string) (snap: string) =
+  let toks = words op in
+  match !st with
+  | HNone | HDead -> ()
+  | HMap (k, m, spec, held, held_keys) ->
+    (* the view after the operation, on copies *)
+    let m2 = ref !m and spec2 = ref !spec in
+    (try ignore (run_mapset_op k m2 spec2 (ref !held) (ref !held_keys) toks) with _ -> ());
+    let pre = sorted_pairs !spec and post = sorted_pairs !spec2 in
+    (match !m with
+     | MT s ->
+       (match parse_tree_snap ment_of 2 snap with
+        | Snap (t, p) ->
+          check_inv mkey t p ~force:true;
+          let view = List.map (fun (a, b) -> (int_of_z a, int_of_z b)) (ents t) in
+          if view = pre then () else if view = post then (m := !m2; spec := !spec2)
+          else mismatch "TORN" ~impl:"contents are neither those before nor those after the operation" ~model:"un-torn";
+          if not (t = s.root && p = s.pl) then begin
+            if view <> post then mismatch "EVSTATE" ~impl:"state after the panic is not the state before the operation" ~model:"every callback of the map / set precedes the first write";
+            m := MT { root = t; pl = p }
+          end
+        | Broken why -> mismatch "INV_LINKS" ~impl:why ~model:"consistent links"
+        | NoSnap -> ())
+     | ML l ->
+       let impl_pairs = (let rec go = function a :: b :: r -> (int_of_string a, (if k.is_set then int_of_string b else int_of_string b)) :: go r | _ -> [] in go (words snap)) in
+       if impl_pairs = pre then () else if impl_pairs = post then (m := !m2; spec := !spec2)
+       else mismatch "TORN" ~impl:snap ~model:"contents before or after the operation";
+       let ms = List.map (fun (a, b) -> (int_of_z a, int_of_z b)) l in
+       if impl_pairs <> ms && impl_pairs <> post then mismatch "EVSTATE" ~impl:snap ~model:"state before the operation")
+  | HKey (is_list, m, b) ->
+    let (o, time) = kop_of_toks toks in
+    let t = (match time with Some t -> t | None -> 0) in
+    let b2 = ref !b in
+    ignore (spec_key b2 o);
+    let pre = live_view t !b and post = live_view t !b2 in
+    let subset stored bag = List.for_all (fun e -> List.mem (kent_triple e) (List.map kent_triple bag)) stored in
+    (match !m with
+     | KT s ->
+       (match parse_tree_snap kent_of 3 snap with
+        | Snap (tr, p) ->
+          check_inv (fun e -> e.kk) tr p ~force:true;
+          let stored = ents tr in
+          let view = live_view t stored in
+          let is_post = (view = post && view <> pre) in
+          if view <> pre && view <> post then mismatch "TORN" ~impl:"live contents are neither those before nor those after the operation" ~model:"un-torn"
+          else if not (subset stored !b2) then mismatch "TORN" ~impl:"an entry that was never inserted is stored" ~model:"stored entries were inserted";
+          if is_post then b := !b2;
+          (* one of the model's event states? *)
+          let ((s', _), evs) = get (k_step s o) in
+          let cands = s :: s' :: List.map (fun (_, es) -> es) evs in
+          (match List.find_opt (fun c -> c.kroot = tr && c.kpl = p) cands with
+           | Some c -> m := KT c
+           | None ->
+             mismatch "EVSTATE" ~impl:"state after the panic is none of the states the model passes through at a callback" ~model:"an event state of the model";
+             m := KT { kroot = tr; kpl = p })
+        | Broken why -> mismatch "INV_LINKS" ~impl:why ~model:"consistent links"
+        | NoSnap -> ())
+     | KL s ->
+       let (buf, mn) = parse_keylist_snap snap in
+       let view = live_view t buf in
+       if view <> pre && view <> post then mismatch "TORN" ~impl:snap ~model:"live contents before or after the operation"
+       else if not (subset buf !b2) then mismatch "TORN" ~impl:"an entry that was never inserted is stored" ~model:"stored entries were inserted";
+       if view = post && view <> pre then b := !b2;
+       (* still a usable list: sorted by key, cached bound below every stored expiration *)
+       let keys = List.map (fun e -> int_of_z e.kk) buf in
+       let rec incr_ok = function a :: (b :: _ as r) -> a < b && incr_ok r | _ -> true in
+       if not (incr_ok keys) then mismatch "TORN" ~impl:snap ~model:"keys strictly increasing";
+       if List.exists (fun e -> int_of_z e.kexp < mn) buf then mismatch "TORN" ~impl:snap ~model:"cached earliest expiration <= every stored expiration";
+       (* event states of the list model: the buffer with some expired entries already dropped *)
+       let rec subseq a bb = (match a, bb with
+         | [], _ -> true
+         | _, [] -> false
+         | x :: a', y :: b' -> if x = y then subseq a' b' else (int_of_z y.kexp <= t || true) && subseq a b') in
+       let (s', _) = kl_step max_exp_i32 s o in
+       if not ((subseq buf s.kbuf || buf = s'.kbuf)) then mismatch "EVSTATE" ~impl:snap ~model:"the buffer before the operation with some expired entries dropped";
+       ignore is_list;
+       m := KL { kbuf = buf; kmin = z_of_int mn })
+  | HSeg (m, _, _) ->
+    (match !m with
+     | None -> ()
+     | Some s ->
+       (match words snap with
+        | "L" :: _ :: _ :: _ :: cnt :: places ->
+          let cs = parse_chunks (int_of_string cnt) places in
+          let t = (match toks with ["Q"; _; _; t; _] -> int_of_string t | _ -> min_int) in
+          let livem c = List.sort compare (List.filter (fun ((_, e), _) -> int_of_z e >= t) c) in
+          if List.length cs <> List.length s.chunks then mismatch "TORN" ~impl:snap ~model:"same number of places"
+          else begin
+            List.iter2 (fun c mc ->
+              if livem c <> livem mc then mismatch "TORN" ~impl:snap ~model:"every unexpired copy still stored exactly once per place"
+              else if not (List.for_all (fun x -> List.mem x mc) c) then mismatch "TORN" ~impl:snap ~model:"stored copies were inserted") cs s.chunks
+          end;
+          m := Some { lay = s.lay; chunks = cs }
+        | _ -> mismatch "CHUNKS" ~impl:snap ~model:"parsable snapshot"))
+
 let process_op_line (st: hstate ref) (line: string) ~(terminated: bool) =
   match split_on " =>" (line ^ " ") with
   | None ->
     cur_op := String.trim line; incr cur_step;
     if not terminated then mismatch "CRASH" ~impl:"process ended while this operation was running (abort / crash / kill)" ~model:"normal return"
   | Some (op, rest) ->
+    let forked = starts_with "~ " op in
+    let op = if forked then String.sub op 2 (String.length op - 2) else op in
     cur_op := op;
     let (body, snap) = (match split_on "##" rest with Some (c, s) -> (c, s) | None -> (rest, "-")) in
     let (ans, calls) = (match split_on " @" (" " ^ body ^ " ") with Some (a, r) -> (a, r) | None -> (body, "")) in
@@ -388,11 +533,24 @@ let process_op_line (st: hstate ref) (line: string) ~(terminated: bool) =
     end else begin
       incr cur_step;
       stat ("ops_" ^ !cur_coll);
-      if starts_with "!PANIC" ans then begin
+      note_distinct op ans snap;
+      let restore = (match !st with
+        | HKey (_, m, b) when forked -> let sm = !m and sb = !b in (fun () -> m := sm; b := sb)
+        | _ -> (fun () -> ())) in
+      if contains ans "!NONTERMINATING" then mismatch "HANG" ~impl:ans ~model:"the walk ends at the empty sentinel";
+      if starts_with "!HANG" ans then begin
+        mismatch "HANG" ~impl:ans ~model:"the operation returns"; st := HDead
+      end else if starts_with "!PANIC" ans then begin
         mismatch "PANIC" ~impl:ans ~model:"normal return"; st := HDead
+      end else if starts_with "!INJECTED" ans then begin
+        stat "injections";
+        (try injected st op snap with
+         | Model_err e -> mismatch "MODELERR" ~impl:ans ~model:("model returned " ^ e); st := HDead
+         | Failure e -> mismatch "RUNNER" ~impl:line ~model:("runner failure: " ^ e); st := HDead
+         | Not_found -> mismatch "RUNNER" ~impl:line ~model:"runner failure: Not_found"; st := HDead)
       end else
       (try
-        match !st with
+        (match !st with
         | HNone | HDead -> ()
         | HMap (k, m, spec, held, held_keys) ->
           let toks = words op in
@@ -426,6 +584,8 @@ let process_op_line (st: hstate ref) (line: string) ~(terminated: bool) =
           let (mout, mcalls, mcap) =
             (match !m with
              | KT s ->
+               (* an operation on a copy: Vec::clone gives the free list exactly its length as capacity *)
+               let s = if forked then { s with kpl = { s.kpl with ucap = n_of_int (List.length s.kpl.unused) } } else s in
                let ((s', out), evs) = get (k_step s o) in
                m := KT s';
                let calls = List.filter_map (fun ((kind, e), _) -> match kind with EvCmp -> Some (Printf.sprintf "%d:%d" (int_of_z e.kk) (int_of_z e.kexp)) | EvExp -> None) evs in
@@ -543,6 +703,7 @@ let process_op_line (st: hstate ref) (line: string) ~(terminated: bool) =
                       if List.length copies > 8 * live_vals then mismatch "PURGE" ~impl:(Printf.sprintf "%d copies stored" (List.length copies)) ~model:(Printf.sprintf "<= 8 * %d unexpired values" live_vals)
                     | None -> ())
                  | _ -> mismatch "CHUNKS" ~impl:snap ~model:"parsable snapshot")))
+        ); restore ()
       with
       | Model_err e -> mismatch "MODELERR" ~impl:ans ~model:("model returned " ^ e); st := HDead
       | Failure e -> mismatch "RUNNER" ~impl:line ~model:("runner failure: " ^ e); st := HDead
@@ -610,6 +771,13 @@ let () =
         | _ -> failwith "bad H line"
       end
       else if starts_with "#END" line then (flush_pending ~terminated:true; ended := true)
+      else if starts_with "#CRASH" line then begin
+        (* the harness process died here and was restarted after this history *)
+        (match !pending with
+         | Some _ -> flush_pending ~terminated:false
+         | None -> mismatch "CRASH" ~impl:("the harness process died between operations: " ^ line) ~model:"normal termination");
+        st := HDead
+      end
       else if starts_with "#" line then ()
       else begin
         flush_pending ~terminated:true;
